@@ -1037,7 +1037,7 @@ impl Property for C20 {
         "history_steps_checked"
     }
     fn rule(&self) -> &'static str {
-        "one seeded history = MockDisplay<C> for one of 6 colour types + 1..10 steps: draw_iter batches, draw_pixel, fill_solid / fill_contiguous / clear (trait defaults), drawables, set_pixel / set_pixels (Some/None), continuing on a clone / on from_points(..) / on from_pattern of the current content, flag changes (all four combinations, also mid-history), comparison with a (modified) clone via == and diff, Debug -> from_pattern round trip, from_pattern of a seeded pattern; points inside, on the last row/column, just outside, negative and far outside; pixels repeated within a batch and across batches. After every step: panic observed iff predicted, get_pixel on all 4096 cells, affected_area == tight box. distinct = 64-bit hash of the decoded history; non-trivial = at least one cell written by a drawing operation"
+        "one seeded history = MockDisplay<C> for one of 13 colour types (12 library types with a character set + a harness-defined one with non-ASCII pattern characters) + 1..10 steps: draw_iter batches, draw_pixel, fill_solid / fill_contiguous / clear (trait defaults), drawables, set_pixel / set_pixels (Some/None), continuing on a clone() / clone_from() / on from_points(..) / on from_pattern of the current content, flag changes (all four combinations, also mid-history), comparison with a (modified) clone via ==, diff, assert_eq(_with_message), Debug -> from_pattern round trip (the pattern-built display must equal the drawn one; assert_pattern accepts it and rejects one changed cell), from_pattern of a seeded pattern; points inside, on the last row/column, just outside, negative and far outside; pixels repeated within a batch and across batches. After every step: panic observed iff predicted, get_pixel on all 4096 cells, affected_area == tight box. distinct = 64-bit hash of the decoded history; non-trivial = at least one cell written by a drawing operation"
     }
     fn assumptions(&self) -> Vec<&'static str> {
         vec![
